@@ -381,14 +381,15 @@ Definition site_func (s : site) : string * string :=
 
 (* the function calls flatname, and every call of it passes `avoid=module.namespace` *)
 Definition table_avoids (f : string * string) : bool :=
-  let cs := filter (fun c => String.eqb (fst (fst c)) (fst f) && String.eqb (snd (fst c)) (snd f)) c05_flatname_calls in
+  (* a site is identified by its PASS (file): every flatname call of that pass hands over the namespace *)
+  let cs := filter (fun c => String.eqb (fst (fst c)) (fst f)) c05_flatname_calls in
   negb (match cs with [] => true | _ => false end) && forallb (fun c => String.eqb (snd c) "module.namespace") cs.
 
 Lemma sites_table s : site_avoids Repaired s = table_avoids (site_func s).
 Proof. destruct s; vm_compute; reflexivity. Qed.
 
 Lemma sites_table_complete :
-  forallb (fun c => existsb (fun f => String.eqb (fst (fst c)) (fst f) && String.eqb (snd (fst c)) (snd f))
+  forallb (fun c => existsb (fun f => String.eqb (fst (fst c)) (fst f))
                             [site_func (SPortRef "" ""); site_func (SNoConn None "" ""); site_func (SNoConnMember None "" "" []); site_func (SFlatMember "" "");
                              site_func (SArrayElem "" 0); site_func (SPairMember "" "")]) c05_flatname_calls = true.
 Proof. vm_compute. reflexivity. Qed.
